@@ -45,6 +45,42 @@ package size
 //@ func appendSeparator
 //@   inline
 
+// the default, pretty and HTML renderings are the formatter's output for the respective flags
+//@ pure func rendering(s Size, f Format) bytes = (cat i in 0..20 :: digitPart(shVal(uint64(s)), i) ++ sepPart(shVal(uint64(s)), i, f)) ++ binUnit(shExp(uint64(s)))
+//@ func (Size).String
+//@   ensures [C13.render C04.string] result == rendering(s, 0)
+//@ func (Size).PrettyString
+//@   ensures [C13.render C04.string] result == rendering(s, FormatPretty)
+//@ func (Size).PrettyHTML
+//@   ensures [C13.render] result == rendering(s, FormatPretty|FormatHTML)
+//@ func (Size).BytesString
+//@   ensures [C04.bytes] result == decText(uint64(s))
+
+// ---- C04: the marshalled forms --------------------------------------------------------------------------------------
+//@ func (Size).marshalText
+//@   bound len(r0) <= 30
+//@   ensures [C04.text] r1 == nil
+//@   ensures [C04.text] DisableMarshalTextUnit ==> r0 == decText(uint64(s))
+//@   ensures [C04.text] !DisableMarshalTextUnit ==> r0 == rendering(s, 0)
+//@   ensures fresh(r0)
+//@ func (Size).MarshalText
+//@   ensures [C04.text] r1 == nil
+//@   ensures [C04.text] DisableMarshalTextUnit ==> r0 == decText(uint64(s))
+//@   ensures [C04.text] !DisableMarshalTextUnit ==> r0 == rendering(s, 0)
+//@   ensures fresh(r0)
+//@ func (Size).marshalJSONObject
+//@   ensures [C04.json] result == "{\"value\":" ++ decText(shVal(uint64(s))) ++ ",\"unit\":\"" ++ binUnit(shExp(uint64(s))) ++ "\"}"
+//@   ensures fresh(result)
+
+//@ pure func textForm(s Size) bytes = ite(DisableMarshalTextUnit, decText(uint64(s)), rendering(s, 0))
+//@ func (Size).MarshalJSON
+//@   ensures [C04.json] r1 == nil
+//@   ensures [C04.json] !DisableMarshalJSONObjectForm ==> r0 == "{\"value\":" ++ decText(shVal(uint64(s))) ++ ",\"unit\":\"" ++ binUnit(shExp(uint64(s))) ++ "\"}"
+//@   ensures [C04.json] DisableMarshalJSONObjectForm && !DisableMarshalJSONStringForm && DisableMarshalTextUnit ==> r0 == "\"" ++ decText(uint64(s)) ++ "\""
+//@   ensures [C04.json] DisableMarshalJSONObjectForm && !DisableMarshalJSONStringForm && !DisableMarshalTextUnit ==> r0 == "\"" ++ rendering(s, 0) ++ "\""
+//@   ensures [C04.json] DisableMarshalJSONObjectForm && DisableMarshalJSONStringForm ==> r0 == decText(uint64(s))
+//@   ensures fresh(r0)
+
 // ---- C08: unit multipliers, written from the statement -----------------------------------------------------------------
 //@ pure func unitMult(u bytes) uint64 = ite(u == "B", 1, ite(u == "kB", 1000, ite(u == "MB", 1000000, ite(u == "GB", 1000000000, ite(u == "TB", 1000000000000,
 //@     ite(u == "PB", 1000000000000000, ite(u == "EB", 1000000000000000000, ite(u == "KiB", 1024, ite(u == "MiB", 1048576, ite(u == "GiB", 1073741824,
@@ -65,6 +101,33 @@ package size
 //@   ensures [C08.class] !numIsZero(value) && !numIsNat64(value) ==> errAs(r1, *InvalidValueError[N])
 //@   ensures [C08.class] !numIsZero(value) && numIsNat64(value) && unit != "" && !unitKnown(unit) ==> errAs(r1, *InvalidUnitError)
 //@   ensures [C08.class] !numIsZero(value) && numIsNat64(value) && unitKnown(unit) && !mulFits64(numToU64(value), multOf(unit)) ==> errAs(r1, *InvalidValueError[N])
+
+// ---- C08 / C04: text parsing -------------------------------------------------------------------------------------------
+// prepareNumber is a pure function of the text; what it returns for every text is pinned by these clauses, and
+// what it returns for the texts the statement describes is established by the bounded lemmas below.
+//@ func prepareNumber
+//@   pure
+//@   ensures [C08.prep] forall i in 0..len(number) :: isDigit(number[i])
+//@   ensures [C08.prep] len(unit) <= len(input)
+//@   loop 0 invariant 0 <= rangePos() && rangePos() <= len(input)
+//@   loop 0 invariant forall i in 0..len(theBuilder()) :: isDigit(theBuilder()[i])
+//@   loop 0 invariant fresh(theBuilder()) && heapSame()
+
+// unmarshalText: the number's digits must parse as an unsigned 64-bit decimal; a unit, if any, must be allowed
+// and known, and number x multiplier must fit.
+//@ pure func txtNumber(w bytes) bytes = prepareNumber(w).number
+//@ pure func txtUnit(w bytes) bytes = prepareNumber(w).unit
+//@ pure func txtOK(w bytes, r Rule) bool = txtNumber(w) != "" && decOK(txtNumber(w)) && (txtUnit(w) == "" || (r&RuleDisableUnit == 0
+//@     && ite(decVal(txtNumber(w)) == 0, unitZeroOK(txtUnit(w)), unitKnown(txtUnit(w)) && mulFits64(decVal(txtNumber(w)), unitMult(txtUnit(w))))))
+//@ pure func txtValue(w bytes) uint64 = ite(txtUnit(w) == "", decVal(txtNumber(w)), decVal(txtNumber(w)) * unitMult(txtUnit(w)))
+//@ func unmarshalText
+//@   ensures [C08.text] r1 == nil <==> txtOK(input, r)
+//@   ensures [C08.text] r1 == nil ==> mathint(r0) == mathint(txtValue(input))
+//@   ensures [C08.text C17.zero] r1 != nil ==> r0 == 0 && errAs(r1, *ParseError)
+//@   ensures [C08.class] txtNumber(input) != "" && decOK(txtNumber(input)) && txtUnit(input) != "" && r&RuleDisableUnit != 0 ==> errIs(r1, ErrUnitDisabled)
+
+//@ func newParseError
+//@   inline
 
 //@ func newInvalidUnitError
 //@   inline
@@ -90,7 +153,9 @@ package size
 type verifDerived int16
 type verifDerivedF float32
 
-var _ = []any{New[int], New[int8], New[int16], New[int32], New[int64], New[uint], New[uint8], New[uint16], New[uint32], New[uint64], New[float32], New[float64],
+var _ = []any{unmarshalText[string], unmarshalText[[]byte], DefaultParser[string], DefaultParser[[]byte],
+	New[int], New[int8], New[int16], New[int32], New[int64], New[uint], New[uint8], New[uint16], New[uint32], New[uint64], New[float32], New[float64],
 	New[verifDerived], New[verifDerivedF],
 	Bytes[int], Bytes[int8], Bytes[int16], Bytes[int32], Bytes[int64], Bytes[uint], Bytes[uint8], Bytes[uint16], Bytes[uint32], Bytes[uint64], Bytes[float32], Bytes[float64],
 	Bytes[verifDerived], Bytes[verifDerivedF]}
+
